@@ -5,8 +5,8 @@ which = sys.argv[1] if len(sys.argv) > 1 else "r1"
 rows = []
 for m in sorted(glob.glob(os.path.join(os.path.dirname(os.path.dirname(os.path.abspath(__file__))), "seeded", "*", "meta.json"))):
     d = json.load(open(m))
-    r2 = d["variant"].startswith("r2")
-    if r2 != (which == "r2"):
+    rnd = d["variant"][:2] if d["variant"][:1] == "r" else "r1"
+    if rnd != which:
         continue
     needs = " ".join(d["needs_to_manifest"].replace("|", "/").replace("`", "").split())
     if len(needs) > 260:
